@@ -13,3 +13,4 @@ json.dump({'findings':[], 'fixed':fixed}, open(p,'w'), indent=1)
 PY
 rm -f tables/reviewed_sites.json
 python3 tools/triage.py /tmp/open-C*.json
+python3 tools/annotate_requires.py $F
